@@ -218,6 +218,10 @@ def gen_inputs(ctx):
                 if -999 < min(n2) + sh and max(n2) + sh < 9999:
                     lines = [pdbgen.setcols(l, 22, 26, "%4d" % (int(l[22:26]) + sh)) if pdbgen.is_atom(l) and l[21] == c2 else l for l in l2]
                     ids = ids2
+        if i % 5 == 2:
+            # incomplete residues: the defining atom of a site stays, the hetero atoms at the end of the side chain are gone
+            # (ASP keeps CG without OD1/OD2, HIS keeps CG without its ring nitrogens, ARG keeps CZ alone) - the site is still there
+            lines = pdbgen.truncate_sidechains(rnd, lines, rnd.randint(1, 3), types=rnd.choice([None, ("ASP", "GLU"), ("HIS", "ARG")]))
         if rnd.random() < 0.3:
             lines = pdbgen.insert_at_random(rnd, lines, pdbgen.JUNK, rnd.randint(1, 3))
         if rnd.random() < 0.25:     # HETATM before the first ATOM
